@@ -4,5 +4,53 @@ LEVEL = "proof"
 def run(chk, replay=None):
     chk.cov["rule"] = "K2: generated expressions x scripts; non-trivial = has stop/error/done"
     chk.prove()
+    result_probe(chk)
     k2.standard_k2(chk)
     k2v2.standard_k2v2(chk)   # second-generation model Calc2: more algorithms and throwing value copies (tie; theorems Properties_*_calc2.v)
+
+
+# documented results (doc/api_reference.md and the headers' comments), written down independently of the program's output
+DOCUMENTED = {
+    "war_empty": "v[]", "war_v": "v[0]", "war_vvv": "v[0,10,20]",          # values in index order
+    "war_vev": "e101", "war_vdv": "d", "war_ved": "e101", "war_vde": "d", "war_eee": "e100",   # the first non-value child decides
+    "just_from_v": "v7", "just_from_throw": "e31",
+    "jvod_true": "v1", "jvod_false": "d",
+    "lvw_v": "v6", "lvw_e": "e5",
+    "defer_v": "v9", "defer_d": "v-5",
+    "demat_mat_v": "v3", "demat_mat_e": "e33", "demat_mat_d": "v-6",
+    "intov_v": "v5", "variant_first": "v8", "variant_second": "d",
+    "let_error_maps": "v-1", "let_error_passes_v": "v2", "let_done_maps": "v-2", "upon_done_maps": "v-3", "upon_error_maps": "v-4",
+    "repeat_until_3": "v3", "repeat_error": "e37",
+    "retry_third_time": "v3", "retry_trigger_done": "d", "retry_trigger_error": "e41",
+}
+
+
+def result_probe(chk):
+    """harness/k3_c05_probe.cpp: results of algorithms / input shapes outside the generated grammar (when_all_range, just_from,
+    just_void_or_done, let_value_with, defer, into_variant, variant_sender, dematerialize o materialize, repeat/retry results)
+    compared with the documented function - a direct monitor on the real code."""
+    import re, vlib
+    exe, err = vlib.build_driver("k3_c05_probe", "plain17")
+    if err:
+        p = chk.replay_file("c05probe_build", {"kind": "build-failure", "error": err[-3000:]})
+        chk.violation("c05probe/build", p, no_input=True, text="k3_c05_probe does not compile against /repo")
+        return
+    rc, out = vlib.sh([exe], timeout=120)
+    seen = {}
+    for l in out.splitlines():
+        m = re.match(r"(\w+) = (.*)$", l)
+        if m:
+            seen[m.group(1)] = m.group(2).strip()
+    for name, want in DOCUMENTED.items():
+        got = seen.get(name)
+        chk.count("c05probe:" + name, want[0] != "v")
+        if got == want:
+            chk.cov["traces_validated_against_impl"] += 1
+            continue
+        p = chk.replay_file("c05probe_" + name, {"kind": "result-probe", "probe": name, "documented": want, "observed": got,
+                                                 "replay": exe + " | grep '^%s '" % name})
+        chk.violation("c05probe/%s" % name, p, text="%s: documented result %s, observed %s" % (name, want, got))
+    if (rc != 0 or "END" not in out) and not chk.violations:
+        p = chk.replay_file("c05probe_run", {"kind": "probe-crash", "rc": rc, "out": out[-2000:], "replay": exe})
+        chk.violation("c05probe/crash", p, text="result probe program failed rc=%d" % rc)
+    chk.cov["result_probes"] = len(DOCUMENTED)
